@@ -209,7 +209,9 @@ HLines(x) ==
      <<NHLine(2, <<NTLit("a")>>), NHLine(0, <<NTIf(0, NVar("b"), NTpl("q", <<NInterp(0, x)>>), NNone)>>), NHLine(2, <<NTLit("b")>>)>>,
      <<NHLine(2, <<NTLit("a")>>), NHLine(1, <<NInterp(0, x)>>), NHLine(2, <<>>)>>,
      <<>>}
-HLeaves == {NTpl(k, ls) : k \in {"h", "hf"}, ls \in UNION {HLines(x) : x \in {NVar("s"), NVar("n1"), NVar("nul"), NVar("l"), NBin("+", NVar("n1"), NVar("n2"))}}}
+HLeaves == {NTpl(k, ls) : k \in {"h", "hf"}, ls \in UNION {HLines(x) : x \in {NVar("s"), NVar("n1"), NVar("nul"), NVar("l"), NBin("+", NVar("n1"), NVar("n2")),
+                                                                                        \* an interpolation whose expression contains "=" and item separators
+                                                                                        NAttr(NObject(<<NKeyId("a"), NVar("s"), NKeyId("b"), NVar("n1")>>), "a")}}}
 WHere(x) == {NTuple(<<x>>), NTuple(<<NVar("s"), x>>), NCall("upper", FALSE, <<x>>), NCall("cat", FALSE, <<x, NVar("s")>>),
              NObject(<<NKeyId("a"), x>>), NCond(NVar("b"), x, NVar("s")), NBin("==", x, NVar("s")), NIndex(NVar("m"), x)}
 
